@@ -5,7 +5,7 @@ RULE = ("mode 1: gf_mul / gf_add / gf_div on EVERY pair of bytes (65 536 pairs, 
         "GF(2^8) (carry-less multiplication reduced by 0x11D, inverse by exhaustive search); mode 2: the real Shamir::split "
         "with std::random_device replaced at link time by scripted bytes (thresholds 1..8, 32, 128, 254, 255; share counts "
         "t, t+1, 255; 0 and t > n refused); mode 3: the real Shamir::combine on subsets of split outputs -- any t shares in "
-        "any order, more than t, fewer than t, a repeated index (with zero and non-zero values), index 0, threshold 0; "
+        "any order, more than t, fewer than t, a (t-1)-threshold reconstruction over the same index prefix immediately before and after, a repeated index (with zero and non-zero values), index 0, threshold 0; "
         "mode 4: evaluate_polynomial. Oracle (independent of the model): python Lagrange interpolation over the python "
         "field; split must yield n shares with indices 1..n whose values are the polynomial's; every t-subset must "
         "reconstruct the secret; fewer than t or repeated indices must throw std::invalid_argument. non-trivial = t >= 2; "
@@ -107,6 +107,14 @@ def generate(rng, tier):
         elif r < 0.65:
             sub = [(0, secret)] + rng.sample(shares, t - 1); tag = "combine-index0"
         cases.append({"ints": [3, t, len(sub)] + sum(([x] + y for x, y in sub), []), "tag": tag, "secret": secret})
+        if t >= 2 and cnt >= t + 1:
+            # the same index prefix under a smaller threshold first, then the full threshold (and the other way round): a
+            # reconstruction must not depend on what was reconstructed before
+            other = mk_shares([rng.randrange(256) for _ in range(32)], t - 1, cnt, [rng.randrange(256) for _ in range(32 * (t - 2))])
+            pre = [other[j[0] - 1] for j in shares[:t - 1]]
+            cases.append({"ints": [3, t - 1, len(pre)] + sum(([x] + y for x, y in pre), []), "tag": "combine-prefix"})
+            cases.append({"ints": [3, t, t] + sum(([x] + y for x, y in shares[:t]), []), "tag": "combine-t", "secret": secret})
+            cases.append({"ints": [3, t - 1, len(pre)] + sum(([x] + y for x, y in pre), []), "tag": "combine-prefix"})
         cases.append({"ints": [4, rng.randrange(256), rng.randrange(256)] + lp([rng.randrange(256) for _ in range(rng.choice([0, 1, 2, 7]))]), "tag": "eval"})
     for t, cnt in [(0, 5), (5, 0), (0, 0), (6, 5), (255, 254), (1, 1), (1, 255), (255, 255), (2, 255)]:
         rnd = [rng.randrange(256) for _ in range(32 * max(0, t - 1))]
